@@ -1,6 +1,7 @@
 package main
 
 import (
+	"sync/atomic"
 	"context"
 	"fmt"
 	"go/types"
@@ -142,6 +143,14 @@ func (p *Program) verifyFunctionOpt(f *ssa.Function, ct *Contract, sweep, refute
 				}
 			}
 			for _, cl := range ct.Clauses {
+				if cl.Kind == "ensures" || cl.Kind == "canary" {
+					// a clause that cannot be interpreted on this code (a field changed its type, a named local is gone) is a failed
+					// obligation of its own, named after the clause - not an engine failure of the whole function
+					if _, err := ev.safeBool(cl.Expr); err != nil {
+						vc.obls = append(vc.obls, &Obligation{Name: vc.oblName("spec", cl.Label), Kind: "spec", Props: ct.clauseProps(cl), Goal: TFalse, Reach: st.Reach, NFacts: len(vc.facts), Fn: f.String(), Status: "failed", Solver: "spec-evaluator", Output: err.Error() + " (" + cl.Where + ")", Expect: "unsat"})
+						continue
+					}
+				}
 				switch cl.Kind {
 				case "ensures":
 					evs := []*SpecEval{ev}
@@ -518,7 +527,21 @@ var globalSem = make(chan struct{}, 15)
 // term construction (hash-consing tables) is not concurrent: query files are generated under this lock
 var termMu sync.Mutex
 
+// undischargedSoFar counts obligations of this run that came back failed or unknown. Once a check has clearly failed (8 of
+// them) the remaining obligations get a short solver budget: the verdict "violation" no longer depends on them, and a
+// broken tree is reported in a minute or two instead of a quarter of an hour. On a tree where everything discharges the
+// counter stays at zero and nothing changes.
+var undischargedSoFar int64
+
 func solveOne(o *Obligation, file string, timeout int, thorough bool) {
+	if atomic.LoadInt64(&undischargedSoFar) >= 8 && !thorough && timeout > 5 {
+		timeout = 5
+	}
+	defer func() {
+		if o.Expect != "sat" && o.Status != "discharged" {
+			atomic.AddInt64(&undischargedSoFar, 1)
+		}
+	}()
 	var log []string
 	if o.Expect == "sat" {
 		// covers and canaries: the query must NOT be refutable. "sat" is the definite answer; with quantified
